@@ -104,7 +104,14 @@ def log_effects(fx, W, is_state_write):
             continue
         for w in ws:
             if w['field'][0] == 'reverse_log' and w['how'].startswith('call:grow') and w.get('term') and len(w['term']['args']) >= 2:
-                fxs.setdefault(fn, []).append({'value': f.expr_of_operand(w['term']['args'][1]), 'pure': guards_pure(f, w['bb']),
+                pure = guards_pure(f, w['bb'])
+                if not pure:
+                    # `let closed = matches!(log.last(), ..); if !closed { log.push(..) }`: the flag stands for the test it was computed by
+                    from . import inline as _inl
+                    ft = _inl.thread_fn(f)
+                    if w['bb'] in ft.reachable_blocks():
+                        pure = guards_pure(ft, w['bb'])
+                fxs.setdefault(fn, []).append({'value': f.expr_of_operand(w['term']['args'][1]), 'pure': pure,
                                                'bb': w['bb'], 'via': (fn,)})
     for _ in range(4):
         changed = False
